@@ -14,15 +14,18 @@ const workers = 8
 // other, R = -1 names the root the previous operation of the program returned.
 func (r *runner) runPhase(progs [][]Op) {
 	var mu sync.Mutex
-	var wg sync.WaitGroup
+	var wg, ready sync.WaitGroup
 	start := make(chan struct{})
 	ch := make(chan []Op, len(progs))
+	ready.Add(len(progs)) // len(progs) <= workers: every program gets its own goroutine
 	for w := 0; w < workers; w++ {
 		wg.Add(1)
 		go func() {
 			defer wg.Done()
 			<-start
 			for prog := range ch {
+				ready.Done()
+				ready.Wait() // fire together
 				prev := -1
 				for _, op := range prog {
 					if op.R == -1 {
